@@ -97,7 +97,14 @@ def determines(t, p):
     if t[0] in ('fld', 'index', 'elem', 'iter'):
         return any(determines(x, p) for x in t[1:])
     if t[0] == 'op':
-        return any(determines(x, p) for x in t[2:])
+        # arithmetic on the parameter keeps it apart from other values only when it is injective: adding / subtracting / xor-ing a
+        # value that does not depend on any parameter.  A combination of two parameters (address | flags, a + b), or an operation
+        # that loses information (|, &, *, /, %, shifts), lets two different requests produce the same compared value
+        ops = [x for x in t[2:]]
+        with_params = [x for x in ops if params_in(x)]
+        if len(with_params) != 1 or t[1] not in ('+', '-', '^'):
+            return False
+        return determines(with_params[0], p)
     return any(determines(x, p) for x in t if isinstance(x, tuple))
 
 
